@@ -79,8 +79,15 @@ private:
 }   // namespace
 
 uint32_t nextprime(uint32_t n) {
-    PrimesGenerator gen;
-    return gen.next_prime(n);
+    if (n <= 2) {
+        return 2;
+    }
+    //test the odd candidates from n upwards (sqrt(n) work each) instead of enumerating every prime below n
+    uint32_t c = n | 1U;
+    while (!isprime(c)) {
+        c += 2;
+    }
+    return c;
 }
 
 arr_int primes(uint32_t n) {
